@@ -449,27 +449,50 @@ fn c06_paging_latch_history() {
     kani::cover!(m == ZXMachine::Sinclair48K, "48K");
 }
 
-// @harness
-// @prop C06
-// @tier quick
-// @timeout 1500
-// @fn Z80Bus::write (default) -> ZXController::write_internal -> ZXMemory::write; Z80Bus::read (default) -> ZXController::read_internal -> ZXMemory::read; ZXMemory::paged_address; ZXController::write_7ffd
-// @sym machine, latch (two writes), write address a1 (fully symbolic 16 bit), data, read address a2 (fully symbolic)
-// @assert a byte written at a1 is read back at a2 exactly when both addresses denote the same RAM bank and offset under the paging rules (incl. bank 5 or 2 paged at 0xC000); every other address still reads its prior content; a write into the ROM window changes nothing
-// @bound one write + one read on zero-initialised memory (prior content 0, written data != 0)
-// @stub ZXScreen::process_clocks -> no-op; ZXScreen::update -> no-op (the display copy is C08's subject)
-// @replay solver-only
-#[kani::proof]
-#[kani::stub(crate::zx::video::screen::ZXScreen::process_clocks, noop_screen_clocks)]
-#[kani::stub(crate::zx::video::screen::ZXScreen::update, noop_screen_update)]
-fn c06_window_aliasing() {
+/// one CPU write at a concrete (window, offset) chosen symbolically: every store index is a literal
+fn write_at_class(c: &mut ZXController<VHost>, window: u8, osel: u8, d: u8) -> u16 {
+    let off: u16 = match osel {
+        0 => 0x0000,
+        1 => 0x1AFF,
+        _ => 0x3FFF,
+    };
+    let a = ((window as u16) << 14) | off;
+    match (window, osel) {
+        (0, 0) => c.write(0x0000, d, 3),
+        (0, 1) => c.write(0x1AFF, d, 3),
+        (0, _) => c.write(0x3FFF, d, 3),
+        (1, 0) => c.write(0x4000, d, 3),
+        (1, 1) => c.write(0x5AFF, d, 3),
+        (1, _) => c.write(0x7FFF, d, 3),
+        (2, 0) => c.write(0x8000, d, 3),
+        (2, 1) => c.write(0x9AFF, d, 3),
+        (2, _) => c.write(0xBFFF, d, 3),
+        (_, 0) => c.write(0xC000, d, 3),
+        (_, 1) => c.write(0xDAFF, d, 3),
+        (_, _) => c.write(0xFFFF, d, 3),
+    }
+    a
+}
+
+fn aliasing_body(paged_bank: Option<u8>) {
     let (mut c, latch, _t) = any_controller_at(false, false);
     let m = c.machine;
-    let a1: u16 = kani::any();
-    let a2: u16 = kani::any();
+    let window: u8 = kani::any();
+    let osel: u8 = kani::any();
+    kani::assume(window < 4 && osel < 3);
+    match paged_bank {
+        None => kani::assume(window < 3 || m == ZXMachine::Sinclair48K),
+        Some(k) => {
+            // concretisation device: the bank at 0xC000 is fixed per query so that the RAM store
+            // index is a literal (CBMC does not finish a 128K-array store at a symbolic index)
+            kani::assume(m == ZXMachine::Sinclair128K && window == 3 && latch.val & 7 == k);
+            c.memory.remap(3, Page::Ram(k));
+        }
+    }
     let d: u8 = kani::any();
     kani::assume(d != 0);
-    c.write(a1, d, 3);
+    let a1 = write_at_class(&mut c, window, osel, d);
+    let a2: u16 = kani::any();
     let got = c.read(a2, 3);
     let p1 = latch.page(m, (a1 >> 14) as usize);
     let p2 = latch.page(m, (a2 >> 14) as usize);
@@ -478,9 +501,178 @@ fn c06_window_aliasing() {
         _ => false,
     };
     kani::assert(got == if same { d } else { 0 }, "c06.alias.read_back_iff_same_bank_and_offset");
-    kani::cover!(same && a1 != a2 && a1 >= 0xC000, "bank 5 or 2 seen through 0xC000 and its fixed window");
-    kani::cover!(!same && (a1 & 0x3FFF) == (a2 & 0x3FFF) && a1 >= 0x4000 && a2 >= 0x4000, "same offset, different banks");
-    kani::cover!(a1 < 0x4000 && a2 == a1, "write into ROM ignored");
+    kani::cover!(same && a1 != a2, "one bank seen through two windows");
+    kani::cover!(!same && (a1 & 0x3FFF) == (a2 & 0x3FFF) && a2 >= 0x4000 && a1 >= 0x4000, "same offset, different banks");
+}
+
+// @harness
+// @prop C06
+// @tier quick
+// @timeout 900
+// @fn Z80Bus::write (default) -> ZXController::write_internal -> ZXMemory::write; Z80Bus::read (default) -> ZXController::read_internal -> ZXMemory::read; ZXMemory::paged_address; ZXController::write_7ffd
+// @sym machine, latch (two symbolic writes), written window 0..2 (48K: 0..3) x offset in {0, 0x1AFF, 0x3FFF}, data, read address a2 (all 65536)
+// @assert a byte written through a fixed window is read back at a2 exactly when a2 denotes the same RAM bank and offset under the paging rules (bank 5 or 2 also paged at 0xC000); every other address still reads its prior content; a write into the ROM window changes nothing
+// @bound one write + one read on zero-initialised memory (prior content 0, written data != 0); write offsets from the class (the offset is passed through `addr % 16K` only)
+// @stub ZXScreen::process_clocks -> no-op; ZXScreen::update -> no-op (the display copy is C08's subject)
+// @replay solver-only
+#[kani::proof]
+#[kani::unwind(10)]
+#[kani::stub(crate::zx::video::screen::ZXScreen::process_clocks, noop_screen_clocks)]
+#[kani::stub(crate::zx::video::screen::ZXScreen::update, noop_screen_update)]
+fn c06_window_aliasing() {
+    aliasing_body(None);
+}
+
+// @harness
+// @prop C06
+// @tier quick
+// @timeout 900
+// @fn Z80Bus::write (default) -> ZXController::write_internal -> ZXMemory::write; Z80Bus::read; ZXMemory::paged_address; ZXController::write_7ffd
+// @sym 128K latch with bank 0 at 0xC000 (other bits and history symbolic), write through 0xC000 window at offset in {0, 0x1AFF, 0x3FFF}, data, read address a2 (all 65536)
+// @assert a byte written through the paged window is read back at a2 exactly when a2 denotes bank 0 at the same offset (through 0xC000, and through 0x4000/0x8000 when bank 0 is 5/2); nothing else changes
+// @assume bank at 0xC000 == 0 (one query per bank: quick 0,5,7; thorough all 8)
+// @bound one write + one read
+// @stub ZXScreen::process_clocks -> no-op; ZXScreen::update -> no-op
+// @replay solver-only
+#[kani::proof]
+#[kani::unwind(10)]
+#[kani::stub(crate::zx::video::screen::ZXScreen::process_clocks, noop_screen_clocks)]
+#[kani::stub(crate::zx::video::screen::ZXScreen::update, noop_screen_update)]
+fn c06_paged_window_aliasing_bank0() {
+    aliasing_body(Some(0));
+}
+
+// @harness
+// @prop C06
+// @tier thorough
+// @timeout 900
+// @fn Z80Bus::write (default) -> ZXController::write_internal -> ZXMemory::write; Z80Bus::read; ZXMemory::paged_address; ZXController::write_7ffd
+// @sym 128K latch with bank 1 at 0xC000 (other bits and history symbolic), write through 0xC000 window at offset in {0, 0x1AFF, 0x3FFF}, data, read address a2 (all 65536)
+// @assert a byte written through the paged window is read back at a2 exactly when a2 denotes bank 1 at the same offset (through 0xC000, and through 0x4000/0x8000 when bank 1 is 5/2); nothing else changes
+// @assume bank at 0xC000 == 1 (one query per bank: quick 0,5,7; thorough all 8)
+// @bound one write + one read
+// @stub ZXScreen::process_clocks -> no-op; ZXScreen::update -> no-op
+// @replay solver-only
+#[kani::proof]
+#[kani::unwind(10)]
+#[kani::stub(crate::zx::video::screen::ZXScreen::process_clocks, noop_screen_clocks)]
+#[kani::stub(crate::zx::video::screen::ZXScreen::update, noop_screen_update)]
+fn c06_paged_window_aliasing_bank1() {
+    aliasing_body(Some(1));
+}
+
+// @harness
+// @prop C06
+// @tier thorough
+// @timeout 900
+// @fn Z80Bus::write (default) -> ZXController::write_internal -> ZXMemory::write; Z80Bus::read; ZXMemory::paged_address; ZXController::write_7ffd
+// @sym 128K latch with bank 2 at 0xC000 (other bits and history symbolic), write through 0xC000 window at offset in {0, 0x1AFF, 0x3FFF}, data, read address a2 (all 65536)
+// @assert a byte written through the paged window is read back at a2 exactly when a2 denotes bank 2 at the same offset (through 0xC000, and through 0x4000/0x8000 when bank 2 is 5/2); nothing else changes
+// @assume bank at 0xC000 == 2 (one query per bank: quick 0,5,7; thorough all 8)
+// @bound one write + one read
+// @stub ZXScreen::process_clocks -> no-op; ZXScreen::update -> no-op
+// @replay solver-only
+#[kani::proof]
+#[kani::unwind(10)]
+#[kani::stub(crate::zx::video::screen::ZXScreen::process_clocks, noop_screen_clocks)]
+#[kani::stub(crate::zx::video::screen::ZXScreen::update, noop_screen_update)]
+fn c06_paged_window_aliasing_bank2() {
+    aliasing_body(Some(2));
+}
+
+// @harness
+// @prop C06
+// @tier thorough
+// @timeout 900
+// @fn Z80Bus::write (default) -> ZXController::write_internal -> ZXMemory::write; Z80Bus::read; ZXMemory::paged_address; ZXController::write_7ffd
+// @sym 128K latch with bank 3 at 0xC000 (other bits and history symbolic), write through 0xC000 window at offset in {0, 0x1AFF, 0x3FFF}, data, read address a2 (all 65536)
+// @assert a byte written through the paged window is read back at a2 exactly when a2 denotes bank 3 at the same offset (through 0xC000, and through 0x4000/0x8000 when bank 3 is 5/2); nothing else changes
+// @assume bank at 0xC000 == 3 (one query per bank: quick 0,5,7; thorough all 8)
+// @bound one write + one read
+// @stub ZXScreen::process_clocks -> no-op; ZXScreen::update -> no-op
+// @replay solver-only
+#[kani::proof]
+#[kani::unwind(10)]
+#[kani::stub(crate::zx::video::screen::ZXScreen::process_clocks, noop_screen_clocks)]
+#[kani::stub(crate::zx::video::screen::ZXScreen::update, noop_screen_update)]
+fn c06_paged_window_aliasing_bank3() {
+    aliasing_body(Some(3));
+}
+
+// @harness
+// @prop C06
+// @tier thorough
+// @timeout 900
+// @fn Z80Bus::write (default) -> ZXController::write_internal -> ZXMemory::write; Z80Bus::read; ZXMemory::paged_address; ZXController::write_7ffd
+// @sym 128K latch with bank 4 at 0xC000 (other bits and history symbolic), write through 0xC000 window at offset in {0, 0x1AFF, 0x3FFF}, data, read address a2 (all 65536)
+// @assert a byte written through the paged window is read back at a2 exactly when a2 denotes bank 4 at the same offset (through 0xC000, and through 0x4000/0x8000 when bank 4 is 5/2); nothing else changes
+// @assume bank at 0xC000 == 4 (one query per bank: quick 0,5,7; thorough all 8)
+// @bound one write + one read
+// @stub ZXScreen::process_clocks -> no-op; ZXScreen::update -> no-op
+// @replay solver-only
+#[kani::proof]
+#[kani::unwind(10)]
+#[kani::stub(crate::zx::video::screen::ZXScreen::process_clocks, noop_screen_clocks)]
+#[kani::stub(crate::zx::video::screen::ZXScreen::update, noop_screen_update)]
+fn c06_paged_window_aliasing_bank4() {
+    aliasing_body(Some(4));
+}
+
+// @harness
+// @prop C06
+// @tier quick
+// @timeout 900
+// @fn Z80Bus::write (default) -> ZXController::write_internal -> ZXMemory::write; Z80Bus::read; ZXMemory::paged_address; ZXController::write_7ffd
+// @sym 128K latch with bank 5 at 0xC000 (other bits and history symbolic), write through 0xC000 window at offset in {0, 0x1AFF, 0x3FFF}, data, read address a2 (all 65536)
+// @assert a byte written through the paged window is read back at a2 exactly when a2 denotes bank 5 at the same offset (through 0xC000, and through 0x4000/0x8000 when bank 5 is 5/2); nothing else changes
+// @assume bank at 0xC000 == 5 (one query per bank: quick 0,5,7; thorough all 8)
+// @bound one write + one read
+// @stub ZXScreen::process_clocks -> no-op; ZXScreen::update -> no-op
+// @replay solver-only
+#[kani::proof]
+#[kani::unwind(10)]
+#[kani::stub(crate::zx::video::screen::ZXScreen::process_clocks, noop_screen_clocks)]
+#[kani::stub(crate::zx::video::screen::ZXScreen::update, noop_screen_update)]
+fn c06_paged_window_aliasing_bank5() {
+    aliasing_body(Some(5));
+}
+
+// @harness
+// @prop C06
+// @tier thorough
+// @timeout 900
+// @fn Z80Bus::write (default) -> ZXController::write_internal -> ZXMemory::write; Z80Bus::read; ZXMemory::paged_address; ZXController::write_7ffd
+// @sym 128K latch with bank 6 at 0xC000 (other bits and history symbolic), write through 0xC000 window at offset in {0, 0x1AFF, 0x3FFF}, data, read address a2 (all 65536)
+// @assert a byte written through the paged window is read back at a2 exactly when a2 denotes bank 6 at the same offset (through 0xC000, and through 0x4000/0x8000 when bank 6 is 5/2); nothing else changes
+// @assume bank at 0xC000 == 6 (one query per bank: quick 0,5,7; thorough all 8)
+// @bound one write + one read
+// @stub ZXScreen::process_clocks -> no-op; ZXScreen::update -> no-op
+// @replay solver-only
+#[kani::proof]
+#[kani::unwind(10)]
+#[kani::stub(crate::zx::video::screen::ZXScreen::process_clocks, noop_screen_clocks)]
+#[kani::stub(crate::zx::video::screen::ZXScreen::update, noop_screen_update)]
+fn c06_paged_window_aliasing_bank6() {
+    aliasing_body(Some(6));
+}
+
+// @harness
+// @prop C06
+// @tier quick
+// @timeout 900
+// @fn Z80Bus::write (default) -> ZXController::write_internal -> ZXMemory::write; Z80Bus::read; ZXMemory::paged_address; ZXController::write_7ffd
+// @sym 128K latch with bank 7 at 0xC000 (other bits and history symbolic), write through 0xC000 window at offset in {0, 0x1AFF, 0x3FFF}, data, read address a2 (all 65536)
+// @assert a byte written through the paged window is read back at a2 exactly when a2 denotes bank 7 at the same offset (through 0xC000, and through 0x4000/0x8000 when bank 7 is 5/2); nothing else changes
+// @assume bank at 0xC000 == 7 (one query per bank: quick 0,5,7; thorough all 8)
+// @bound one write + one read
+// @stub ZXScreen::process_clocks -> no-op; ZXScreen::update -> no-op
+// @replay solver-only
+#[kani::proof]
+#[kani::unwind(10)]
+#[kani::stub(crate::zx::video::screen::ZXScreen::process_clocks, noop_screen_clocks)]
+#[kani::stub(crate::zx::video::screen::ZXScreen::update, noop_screen_update)]
+fn c06_paged_window_aliasing_bank7() {
+    aliasing_body(Some(7));
 }
 
 // @harness
@@ -887,17 +1079,25 @@ fn c08_cpu_write_reaches_display_copy() {
     kani::cover!(landed.is_none() && addr >= 0xC000, "other bank at 0xC000 is not display memory");
 }
 
-// @harness
-// @prop C08
-// @tier quick
-// @timeout 900
-// @fn ZXController::refresh_memory_dependent_devices (loop body: ZXMemory::ram_page_data + ZXScreen::update per byte)
-// @sym machine, one witness byte (value, display bank, cell from a class of 6 offsets incl. first/last bitmap and attribute bytes) placed in RAM as a snapshot/SCR loader does (through ram_page_data_mut), probe cell
-// @assert after the refresh that every snapshot / screen-file load ends with, the display copy of each displayable bank equals RAM: the witness byte shows at its cell and nowhere else
-// @bound the real 16384-iteration loop(s) are executed (unwind 16386) on otherwise zero RAM; witness offsets {0, 0x07FF, 0x17FF, 0x1800, 0x1955, 0x1AFF}
-#[kani::proof]
-#[kani::unwind(16386)]
-fn c08_snapshot_refresh_copies_ram() {
+static mut RF_REL: u16 = 0;
+static mut RF_BANK: usize = 0;
+static mut RF_HITS: u32 = 0;
+static mut RF_DATA: u8 = 0;
+static mut RF_OTHER_NONZERO: bool = false;
+
+/// replacement for ZXScreen::update inside the refresh loop: remembers what was passed for the witness cell
+fn witness_screen_update<FB: crate::host::FrameBuffer>(_s: &mut ZXScreen<FB>, rel: u16, bank: usize, data: u8) {
+    unsafe {
+        if rel == RF_REL && bank == RF_BANK {
+            RF_HITS += 1;
+            RF_DATA = data;
+        } else if data != 0 {
+            RF_OTHER_NONZERO = true;
+        }
+    }
+}
+
+fn refresh_body() {
     let m = crate::emulator::verif_hooks::any_machine();
     let mut c = mk_controller(m, FbCtx { wx: 0, wy: 0 }, false, false);
     let d: u8 = kani::any();
@@ -911,7 +1111,7 @@ fn c08_snapshot_refresh_copies_ram() {
     };
     let sel: u8 = kani::any();
     kani::assume(sel < 6);
-    let off: usize = match sel {
+    let off: u16 = match sel {
         0 => 0,
         1 => 0x07FF,
         2 => 0x17FF,
@@ -930,16 +1130,37 @@ fn c08_snapshot_refresh_copies_ram() {
             _ => page[0x1AFF] = d,
         }
     }
+    unsafe {
+        RF_REL = off;
+        RF_BANK = bank as usize;
+        RF_HITS = 0;
+        RF_DATA = 0;
+        RF_OTHER_NONZERO = false;
+    }
     c.refresh_memory_dependent_devices();
-    let local = if second { 1 } else { 0 };
-    let (pl, py, pc): (usize, usize, usize) = (kani::any(), kani::any(), kani::any());
-    kani::assume(pl < 2 && py < 192 && pc < 32);
-    let hit_bitmap = pl == local && off == spec_bitmap_offset(py, pc);
-    let hit_attr = pl == local && off == spec_attr_offset(py, pc);
-    kani::assert(sh::shadow_bitmap(&c.screen, pl, py, pc) == if hit_bitmap { d } else { 0 }, "c08.refresh.bitmap_cell");
-    kani::assert(sh::shadow_attr(&c.screen, pl, py >> 3, pc) == if hit_attr { d } else { 0 }, "c08.refresh.attribute_cell");
-    kani::cover!(hit_attr && second, "bank 7 attribute restored");
-    kani::cover!(hit_bitmap && sel == 2, "last bitmap byte restored");
+    unsafe {
+        kani::assert(RF_HITS == 1 && RF_DATA == d, "c08.refresh.witness_byte_forwarded_to_display_copy");
+        kani::assert(!RF_OTHER_NONZERO, "c08.refresh.nothing_else_forwarded_as_nonzero");
+    }
+    kani::cover!(second && sel == 5, "bank 7 last attribute");
+    kani::cover!(m == ZXMachine::Sinclair48K && sel == 2, "48K last bitmap byte");
+}
+
+// @harness
+// @prop C08
+// @tier thorough
+// @timeout 3000
+// @fn ZXController::refresh_memory_dependent_devices (the real 16384-iteration loops over ZXMemory::ram_page_data)
+// @sym machine, one witness byte (value, display bank, offset from {0, 0x07FF, 0x17FF, 0x1800, 0x1955, 0x1AFF}) placed in RAM as a snapshot/SCR loader does (through ram_page_data_mut)
+// @assert the refresh that every snapshot / screen-file load ends with forwards every byte of every displayable bank to the display copy with the right (offset, bank): the witness byte arrives exactly once with its value, nothing else arrives non-zero
+// @bound the real loops are unrolled completely (unwind 16386) on otherwise zero RAM
+// @stub ZXScreen::update -> witness recorder (the offset-to-cell mapping of update is c08_update_stores_cell)
+// @replay solver-only
+#[kani::proof]
+#[kani::unwind(16386)]
+#[kani::stub(crate::zx::video::screen::ZXScreen::update, witness_screen_update)]
+fn c08_snapshot_refresh_copies_ram() {
+    refresh_body();
 }
 
 // =============================================================================================
@@ -981,6 +1202,58 @@ mod c19 {
         }
         kani::cover!(pos2 == pos + 1 && step == 1, "a sample boundary between two adjacent T-states");
         kani::cover!(t >= f && pos == spf, "frame end");
+    }
+
+    // @harness
+    // @prop C16 C19
+    // @tier quick
+    // @features sound
+    // @timeout 900
+    // @fn ZXController::wait_internal; ZXController::frame_pos; ZXMixer::process; ZXMixer::new_frame; ZXController::new_frame
+    // @sym machine, frame time, step length 1..63, for each of two otherwise identical machines: audio queue drained or left full, arbitrary cursor, frames-counted-so-far
+    // @assert two machines equal in emulated state but differing in host-only state (audio queue drained or never drained, frame counter of the current host call) advance identically: same clock, same number of frame ends, same beeper level - audio draining and host call accounting never feed back into emulation
+    // @bound one clock step; sample rate 100 Hz (2 samples/frame) so the queue can be filled by unrolling
+    // @stub ZXScreen::process_clocks -> no-op
+    // @replay solver-only
+    #[kani::proof]
+    #[kani::unwind(12)]
+    #[kani::stub(crate::zx::video::screen::ZXScreen::process_clocks, noop_screen_clocks)]
+    fn c16_host_only_state_does_not_feed_back() {
+        let m = crate::emulator::verif_hooks::any_machine();
+        let mut s = crate::emulator::verif_hooks::mk_settings(m);
+        s.sound_sample_rate = 100;
+        let f = spec_frame_len(m);
+        let t: usize = kani::any();
+        let d: usize = kani::any();
+        kani::assume(t < f && d >= 1 && d < 64);
+        let mut a = ZXController::<VHost>::new(&s, FbCtx { wx: 0, wy: 0 });
+        let mut b = ZXController::<VHost>::new(&s, FbCtx { wx: 0, wy: 0 });
+        a.frame_clocks = t;
+        b.frame_clocks = t;
+        let (ear, mic): (bool, bool) = (kani::any(), kani::any());
+        a.mixer.beeper.change_state(ear, mic);
+        b.mixer.beeper.change_state(ear, mic);
+        // host-only differences
+        let (fa, fb): (usize, usize) = (kani::any(), kani::any());
+        kani::assume(fa < 100 && fb < 100);
+        a.passed_frames = fa;
+        b.passed_frames = fb;
+        // b's host never drained audio: queue holds a full frame already
+        let mut i = 0;
+        while i < 2 {
+            b.mixer.process(1.0);
+            i += 1;
+        }
+        b.mixer.new_frame();
+        kani::assert(mh::ring_len(&b.mixer) == 2 && mh::ring_len(&a.mixer) == 0, "c16.host.setup");
+        a.wait_internal(d);
+        b.wait_internal(d);
+        kani::assert(a.frame_clocks == b.frame_clocks, "c16.host.same_clock");
+        kani::assert(a.passed_frames - fa == b.passed_frames - fb, "c16.host.same_frame_ends");
+        kani::assert(bh::levels(&a.mixer.beeper) == bh::levels(&b.mixer.beeper), "c16.host.same_beeper_level");
+        kani::assert(mh::ring_len(&b.mixer) < 4, "c19.queue_below_two_frames_when_never_drained");
+        kani::cover!(a.passed_frames == fa + 1, "step across a frame end");
+        kani::cover!(mh::ring_len(&a.mixer) == 1, "drained machine produced a sample");
     }
 
     // @harness
